@@ -27,7 +27,7 @@ import evalstream as es
 
 PID = "C01"
 MANIFEST = {
-    "text": "24 Coq theorems over the evaluator model (explicit Panic outcome for every partial Rust operation on a "
+    "text": "26 Coq theorems over the evaluator model (explicit Panic outcome for every partial Rust operation on a "
             "modelled path): evaluation at any call-depth budget from any configuration whose innermost frame is Owned "
             "never returns Panic and keeps that invariant — for every operator/built-in implementation that does not "
             "panic itself; hypotheses discharged for the transcribed operators (26 ops x 3 broadcasting arms: no "
